@@ -45,10 +45,23 @@ pub fn run_in_child(case: &Case, want_log: bool, timeout_s: u32) -> RunResult {
     drop(f);
     let mut status = 0i32;
     unsafe { libc::waitpid(pid, &mut status, 0) };
+    if !libc::WIFSIGNALED(status) {
+        let _ = std::fs::remove_file(format!("/dev/shm/rlsim.crumb.{pid}"));
+    }
     // scratch directory of a child that died early
     let _ = std::fs::remove_dir_all(format!("/dev/shm/rlsim.{pid}"));
     if libc::WIFSIGNALED(status) {
         let sig = libc::WTERMSIG(status);
+        // a child may announce that the next step can legitimately kill the process
+        // (e.g. opening a deliberately corrupted database aborts on a huge allocation)
+        let crumb_path = format!("/dev/shm/rlsim.crumb.{pid}");
+        if let Ok(c) = std::fs::read_to_string(&crumb_path) {
+            let _ = std::fs::remove_file(&crumb_path);
+            if let Ok(mut r) = serde_json::from_str::<RunResult>(&c) {
+                *r.stats.probes.entry(format!("process-died-signal-{sig}")).or_default() += 1;
+                return r;
+            }
+        }
         return harness_err(
             case,
             if sig == libc::SIGALRM {
